@@ -93,6 +93,9 @@ class Interp:
         self.loc = "?"
         self.np = N.NP("numpy")
         self.da = N.NP("dask")
+        self.np._interp = self
+        self.da._interp = self
+        A.DIM_ASSUME[0] = lambda a, b: T.cmp_cond("==", a, b) in self.assumed
         self.loop_hooks = {}      # (qualname, ordinal) -> handler
         self.trace_calls = []
         self.h5 = None
@@ -680,7 +683,7 @@ class Interp:
             s = v.cls.find("setters", name, self.classes)
             if s is not None:
                 fd, owner = s
-                self.call_func(FuncVal(fd, owner.module, owner), [v, val], {})
+                self.call_func(FuncVal(fd, owner.module, owner, name=fd.name + ".setter"), [v, val], {})
                 return
             v.fields[name] = val
             return
